@@ -153,7 +153,9 @@ def run(ctx):
         "quantity-root": lambda b, e: (4 * (m.Prefix(b, e * 2) * Meter**2)).root(2).unit.prefix,
         "unit-power": lambda b, e: ((m.Prefix(b, e // 2) * Meter) ** 2).prefix if e % 2 == 0 else (m.Prefix(b, e) * Meter).prefix,
     }
-    exps = [e for e in range(31 + 40 * ctx.shard, 71 + 40 * ctx.shard)] + [-e for e in range(31 + 40 * ctx.shard, 51 + 40 * ctx.shard)]
+    # every shard takes its own residue class of exponents; |e| stays far inside the float range for negative ones
+    exps = [e for e in range(31, 31 + 40 * ctx.nshards) if e % ctx.nshards == ctx.shard and e <= 300]
+    exps += [-e for e in range(31, 31 + 20 * ctx.nshards) if e % ctx.nshards == ctx.shard and e <= 100]
     rng.shuffle(exps)
     for e in exps:
         for b in (10, 2):
